@@ -20,6 +20,13 @@ Case kinds
   synth-ds    small synthetic Dataset subclasses through the real `Dataset.__init__`
   roundtrip   normalize / unnormalize vs the model and as mutual inverses (exact on dyadic data,
               1e-12 on random floats), ValueError guard
+  history     ONE problem instance evaluated repeatedly with ONE caller-owned buffer overwritten in place between
+              calls (same shape; batch or 1-D point; noiseless and noisy-with-zero-draw; ProblemFromDataset,
+              DecoupledEvaluationProblem, ContinuousProblem); every answer must be the model's answer for the
+              buffer's CURRENT contents; returned arrays are scribbled over and later answers re-checked
+  fresh-ds    get_dataset_instance(name) -> scribble over the returned object -> get_dataset_instance(name) again /
+              ProblemFromDataset / NaiveElimination(dataset_name=name): the later instance must be the pristine
+              scaled data (caches of the code under test are cleared in a finally block)
   moments     (thorough) sample mean / covariance of repeated noisy evaluations inside a 6-sigma band
               fixed by the seed — a statistical TEST, not a proof
 
@@ -40,7 +47,9 @@ RULE = ("cases: lookup (dyadic designs X, values Y, query batch or single 1-D po
         "on-grid / off-grid / midpoint ties / equidistant square centre / duplicate designs / far), noise-util and "
         "noise-prob (factor shape diagonal / correlated lower / symmetric, draws = basis rows then dyadic rows), "
         "continuous (BraninCurrin incl. zero coordinates, linear synthetic), bundled (4 datasets x scaling / lookup), "
-        "synth-ds, roundtrip (dyadic exact / random floats), moments (thorough; statistical test). non-trivial = lookup "
+        "synth-ds, roundtrip (dyadic exact / random floats), history (one reused query buffer overwritten in place, 2-5 "
+        "steps, returned arrays scribbled), fresh-ds (dataset instance scribbled, then requested again by name / by "
+        "an algorithm constructor), moments (thorough; statistical test). non-trivial = lookup "
         "with >= 2 designs and (a tie or an off-grid point or a decoupled index); noise with a non-scalar factor or a "
         "dyadic draw; every other kind counts when its comparison was actually made; distinct by the case data")
 ASSUMPTIONS = [
@@ -361,6 +370,62 @@ def _gen_roundtrip(rng):
     return {"kind": "roundtrip", "shape": shape, "data": data, "bounds": bounds}
 
 
+
+def _gen_history(rng):
+    via = rng.choice(["dataset", "dataset", "dataset", "decoupled", "decoupled", "linear", "branin"])
+    single = rng.random() < 0.3
+    k = 1 if single else rng.choice([1, 2, 3, 4])
+    T = rng.choice([2, 3, 3, 4, 5])
+    case = {"kind": "history", "via": via, "single": single, "scribble": rng.random() < 0.6}
+    if via == "branin":
+        d, m = 2, 2
+        pts = lambda: [rng.randint(0, 32) / 32.0, rng.randint(0, 32) / 32.0]
+        on = None
+    else:
+        d, m = rng.choice([1, 2, 2, 3]), rng.choice([1, 2, 3])
+        p = rng.choice([0, 1, 2])
+        n = rng.choice([2, 3, 5, 8])
+        X = []
+        while len(X) < n:
+            r = [core.dyadic(rng, -8, 8, p) for _ in range(d)]
+            if r not in X or rng.random() < 0.1:
+                X.append(r)
+        case["X"] = X
+        case["Y"] = [[core.dyadic(rng, -16, 16, 2) for _ in range(m)] for _ in range(n)]
+        if via == "linear":
+            case["A"] = [[core.dyadic(rng, -4, 4, 1) for _ in range(m)] for _ in range(d)]
+            case["b"] = [core.dyadic(rng, -4, 4, 1) for _ in range(m)]
+        on = X
+        pts = lambda: [core.dyadic(rng, -20, 20, p + 1) for _ in range(d)]
+    steps, noisy, ixs = [], [], []
+    for t in range(T):
+        r = rng.random()
+        if t > 0 and r < 0.15:
+            cur = [list(row) for row in steps[-1]]          # identical contents: a legitimate cache hit
+        elif t > 0 and r < 0.35 and k > 1:
+            cur = [list(row) for row in steps[-1]]          # one row changed only
+            cur[rng.randrange(k)] = list(on[rng.randrange(len(on))]) if on and rng.random() < 0.5 else pts()
+        else:
+            cur = [(list(on[rng.randrange(len(on))]) if on and rng.random() < 0.5 else pts()) for _ in range(k)]
+        steps.append(cur)
+        noisy.append(rng.random() < 0.25)
+        if via == "decoupled":
+            q = rng.random()
+            if q < 0.3:
+                ixs.append(None)
+            elif q < 0.6 or single:
+                ixs.append(rng.randrange(m))
+            else:
+                ixs.append([rng.randrange(m) for _ in range(k)])
+        else:
+            ixs.append(None)
+    case.update({"steps": steps, "noisy": noisy, "ixs": ixs, "m": m})
+    return case
+
+
+SCRIBBLES = ["units", "flip", "const", "rebind"]
+CONSUMERS = ["get", "problem", "naive"]
+
 def _gen_moments(rng):
     which = rng.choice(["dataset", "linear", "branin", "util-diag", "util-lower"])
     m = 2 if which == "branin" else rng.choice([1, 2, 3])
@@ -385,9 +450,17 @@ def gen(ctx):
                 if k % ctx.nworkers != ctx.worker:
                     continue
                 yield {"kind": "bundled", "name": name, "part": part, "seed": rng.randrange(2 ** 31)}
+    # dataset freshness (deterministic list, worker-sharded)
+    combos = [(nm, sc, co) for nm in DECLARED for sc in SCRIBBLES for co in CONSUMERS]
+    if ctx.tier == "quick":
+        combos = [(nm, SCRIBBLES[(i + ctx.seed) % 4], CONSUMERS[(i + ctx.seed) % 3]) for i, nm in enumerate(DECLARED)] + \
+                 [("Test", "units", "naive"), ("Test", "flip", "get")]
+    for i, (nm, sc, co) in enumerate(combos):
+        if i % ctx.nworkers == ctx.worker:
+            yield {"kind": "fresh-ds", "name": nm, "scribble": sc, "consumer": co}
     # (hand-picked regression cases live in corpus/C20/ and run first)
     kinds = [("lookup", 45), ("noise-util", 12), ("noise-prob", 12), ("continuous", 9), ("synth-ds", 9),
-             ("roundtrip", 13)]
+             ("roundtrip", 13), ("history", 14)]
     if ctx.tier == "thorough":
         for _ in range(ctx.n(0, 140)):
             yield _gen_moments(rng)
@@ -405,6 +478,8 @@ def gen(ctx):
             yield _gen_continuous(rng)
         elif kind == "synth-ds":
             yield _gen_synth_ds(rng)
+        elif kind == "history":
+            yield _gen_history(rng)
         else:
             yield _gen_roundtrip(rng)
 
@@ -965,6 +1040,190 @@ def _run_roundtrip(ctx, case):
     ctx.case_done(case, True, canon=[case["data"], case["bounds"]])
 
 
+
+def _run_history(ctx, case):
+    """HISTORY / ALIASING: one problem instance, one caller-owned buffer overwritten in place between calls."""
+    from vopy.maximization_problem import BraninCurrin, DecoupledEvaluationProblem, ProblemFromDataset
+
+    via, single, m = case["via"], case["single"], case["m"]
+    steps = case["steps"]
+    k, d = len(steps[0]), len(steps[0][0])
+    ctx.count("history_via_" + via)
+    ctx.count("history_single" if single else "history_batch")
+    ds = None
+    if via in ("dataset", "decoupled"):
+        ds = _synthetic_dataset(case["X"], case["Y"])
+        prob = ProblemFromDataset(ds, 0.25)
+        label = "ProblemFromDataset"
+        if via == "decoupled":
+            prob, label = DecoupledEvaluationProblem(prob), "DecoupledEvaluationProblem"
+        Xs = core.qmat(case["X"])
+    elif via == "linear":
+        prob, label = _linear_problem(case["A"], case["b"], 0.25), "ContinuousProblem"
+    else:
+        prob, label = BraninCurrin(0.25), "BraninCurrin"
+    buf = np.empty((d,)) if single else np.empty((k, d))
+    returned = []
+    prev_valid = None
+    for t, cur in enumerate(steps):
+        cur_a = np.array(cur, dtype=float)
+        buf[...] = cur_a[0] if single else cur_a          # overwrite the SAME array object in place
+        ix = case["ixs"][t]
+        kw = {"noisy": bool(case["noisy"][t])}
+        if via == "decoupled":
+            kw["evaluation_index"] = ix
+        hd = (_hash(ds.in_data), _hash(ds.out_data)) if ds is not None else None
+        try:
+            if kw["noisy"]:
+                with _PatchedNormal(np.zeros((k, m))):     # zero draw: the noisy path must return f exactly
+                    got = _evaluate_checked(ctx, case, prob, buf, label, **kw)
+            else:
+                got = _evaluate_checked(ctx, case, prob, buf, label, **kw)
+        except Exception as e:
+            _viol(ctx, f"history-crash:{label}:" + core.exc_key(e), f"step {t}: evaluate raised {type(e).__name__}: {e}", case)
+            return
+        got = np.asarray(got)
+        ctx.count("history_calls")
+        # ---- what the property demands for the buffer's CURRENT contents
+        if ds is not None:
+            valid = []  # per row: set of admissible values (tuples for full rows, floats for components)
+            for r, q in enumerate(cur):
+                band = core.parse_nats(ctx.ask("band", core.qvec(q), Xs, "0"))
+                if ix is None:
+                    valid.append({tuple(case["Y"][j]) for j in band})
+                else:
+                    kk = ix if isinstance(ix, int) else ix[r]
+                    valid.append({case["Y"][j][kk] for j in band})
+            want_shape = (k, m) if ix is None else (k,)
+            good = got.shape == want_shape and all(
+                (tuple(got[r].tolist()) if ix is None else float(got[r])) in valid[r] for r in range(k))
+            if not good:
+                stale = prev_valid is not None and got.shape == prev_valid[0] and all(
+                    (tuple(got[r].tolist()) if got.ndim == 2 else float(got[r])) in prev_valid[1][r] for r in range(k))
+                _viol(ctx, "history-stale-lookup" if stale else "history-wrong-lookup",
+                      f"{label}: step {t} on a reused, in-place overwritten buffer did not return the value of the "
+                      "design nearest to the buffer's CURRENT contents"
+                      + (" (it returned the answer for the PREVIOUS contents)" if stale else ""), case,
+                      detail={"step": t, "contents": cur, "impl": got.tolist(),
+                              "admissible": [sorted(map(list, v)) if ix is None else sorted(v) for v in valid]})
+                return
+            prev_valid = (want_shape, valid)
+        elif via == "linear":
+            want = _fr_mat(ctx.ask("noisy", core.qmat([case["b"]] * k), core.qmat(cur), core.qmat(case["A"])))
+            if not _rows_equal(got, want):
+                _viol(ctx, "history-wrong-value", f"{label}: step {t} on a reused buffer differs from b + x·A for the "
+                      "current contents", case, detail={"step": t, "impl": got.tolist(), "want": want})
+                return
+        else:
+            want = np.asarray(BraninCurrin(0.25).evaluate_true(cur_a.copy()))  # fresh instance, fresh array
+            if not _rows_equal(got, want):
+                _viol(ctx, "history-wrong-value", f"{label}: step {t} on a reused buffer differs from evaluate_true of "
+                      "the current contents", case, detail={"step": t, "impl": got.tolist(), "want": want.tolist()})
+                return
+        # ---- scribble over everything returned so far; nothing the problem holds may change
+        returned.append(got)
+        if case["scribble"]:
+            for a in returned:
+                if isinstance(a, np.ndarray) and a.flags.writeable:
+                    a[...] = 1234.5
+            ctx.count("history_scribbled_outputs")
+        if ds is not None and (_hash(ds.in_data), _hash(ds.out_data)) != hd:
+            _viol(ctx, "evaluate-output-aliases-dataset", f"{label}: writing into a returned array (or evaluating) "
+                  "changed the dataset arrays", case, detail={"step": t})
+            return
+    ctx.case_done(case, len(steps) >= 2, canon=case)
+
+
+def _pristine_bundled(name):
+    """scaled arrays of a bundled dataset built by calling its class directly (never through a by-name factory)"""
+    import vopy.datasets.dataset as D
+
+    inst = getattr(D, name)()
+    return np.array(inst.in_data, dtype=float, copy=True), np.array(inst.out_data, dtype=float, copy=True)
+
+
+def _clear_dataset_caches():
+    import sys
+
+    for modname in ("vopy.datasets.dataset", "vopy.datasets", "vopy.algorithms.naive_elimination"):
+        mod = sys.modules.get(modname)
+        fn = getattr(mod, "get_dataset_instance", None) if mod is not None else None
+        for attr in ("cache_clear",):
+            if fn is not None and hasattr(fn, attr):
+                try:
+                    getattr(fn, attr)()
+                except Exception:
+                    pass
+
+
+def _run_fresh_ds(ctx, case):
+    """ALIASING of bundled datasets: a holder scribbles over its instance; later requests by name must be pristine."""
+    from vopy.datasets import get_dataset_instance
+
+    name, mode, consumer = case["name"], case["scribble"], case["consumer"]
+    ctx.count(f"freshds_{mode}_{consumer}")
+    card, din, dout = DECLARED[name]
+    try:
+        ref_in, ref_out = _pristine_bundled(name)
+        raw_in, raw_out = _raw_bundled(name)
+        first = get_dataset_instance(name)
+        if not (_rows_equal(first.in_data, ref_in) and _rows_equal(first.out_data, ref_out)):
+            _viol(ctx, "dataset-not-fresh", f"{name}: the first instance obtained by name already differs from a "
+                  "directly constructed one", case)
+            return
+        # ---- the holder modifies ITS object
+        if mode == "units":        # convert back to physical-looking units, in place
+            first.in_data *= 37.5
+            first.in_data += 2.0
+            first.out_data *= 3.0
+            first.out_data += 10.0
+        elif mode == "flip":       # flip an objective, in place
+            first.out_data[:, 0] *= -1.0
+        elif mode == "const":
+            first.in_data[...] = 0.5
+            first.out_data[...] = 0.0
+        else:                      # rebind the attributes of the shared object
+            first.in_data = first.in_data * 2.0 + 1.0
+            first.out_data = first.out_data[::-1].copy()
+        # ---- a later consumer asks for the dataset by name
+        if consumer == "naive":
+            from vopy.algorithms.naive_elimination import NaiveElimination
+            from vopy.order import ComponentwiseOrder
+
+            alg = NaiveElimination(0.1, 0.1, name, ComponentwiseOrder(dout), 0.01, L=1)
+            second, prob, who = alg.dataset, alg.problem, f"NaiveElimination(dataset_name={name!r})"
+        else:
+            from vopy.maximization_problem import ProblemFromDataset
+
+            second = get_dataset_instance(name)
+            prob, who = ProblemFromDataset(second, 0.01), f"get_dataset_instance({name!r})"
+        if second is first:
+            ctx.count("dataset_instance_shared_info")
+        sizes_ok = (np.shape(second.in_data), np.shape(second.out_data), second.in_dim, second.out_dim) == \
+            ((card, din), (card, dout), din, dout)
+        same = sizes_ok and _rows_equal(second.in_data, ref_in) and _rows_equal(second.out_data, ref_out)
+        scaled_ok = sizes_ok and _check_scaling(ctx, case, raw_in, raw_out, second.in_data, second.out_data, who)
+        if not (same and scaled_ok):
+            _viol(ctx, "dataset-not-fresh", f"{who} after an earlier holder modified its own instance ({mode}): the "
+                  "dataset handed out is not the pristine scaled data (inputs in [0,1], objectives standardised, equal "
+                  "to the scaling of the file data)", case,
+                  detail={"shared_object": second is first, "sizes_ok": sizes_ok})
+        elif consumer != "get":
+            # the problem built from the name looks values up in pristine data
+            i = card // 2
+            out = np.asarray(prob.evaluate(ref_in[i].copy(), noisy=False))
+            band = core.parse_nats(ctx.ask("band", core.qvec(ref_in[i].tolist()), core.qmat(ref_in.tolist()),
+                                           core.q(Fraction(1, 10 ** 9))))
+            if not any(np.array_equal(out[0], ref_out[j]) for j in band):
+                _viol(ctx, "dataset-not-fresh", f"{who}: lookup at a design does not return the pristine objective row",
+                      case)
+    except Exception as e:
+        _viol(ctx, "freshds-crash:" + core.exc_key(e), f"raised {type(e).__name__}: {e}", case)
+    finally:
+        _clear_dataset_caches()          # no-op on the unchanged code
+        _BUNDLED.pop(name, None)         # our own cache may hold the object that was scribbled over
+    ctx.case_done(case, True, canon=[name, mode, consumer])
+
 def _run_moments(ctx, case):
     """STATISTICAL TEST (not proof): N repeated noisy evaluations, 6-sigma band, seed fixed by the case."""
     from vopy.maximization_problem import BraninCurrin, ProblemFromDataset
@@ -1027,7 +1286,7 @@ def _run_moments(ctx, case):
 
 _RUN = {"lookup": _run_lookup, "noise-util": _run_noise_util, "noise-prob": _run_noise_prob,
         "continuous": _run_continuous, "bundled": _run_bundled, "synth-ds": _run_synth_ds,
-        "roundtrip": _run_roundtrip, "moments": _run_moments}
+        "roundtrip": _run_roundtrip, "moments": _run_moments, "history": _run_history, "fresh-ds": _run_fresh_ds}
 
 
 def run_case(ctx, case):
